@@ -1205,6 +1205,12 @@ def _lit_const(e: ast.AST) -> bool:
         return bool(e.elts) and all(_lit_const(x) for x in e.elts)
     if isinstance(e, ast.UnaryOp) and isinstance(e.op, ast.USub):
         return _lit_const(e.operand)
+    if isinstance(e, ast.BinOp) and isinstance(e.op, (ast.Add, ast.Sub, ast.Mult, ast.Div, ast.Pow, ast.FloorDiv)):
+        # arithmetic of numeric literals (and pi): `2*np.pi`, `(np.pi*280) / (2*151)`, `2**15`
+        num = lambda x: (isinstance(x, ast.Constant) and isinstance(x.value, (int, float)) and not isinstance(x.value, bool)) \
+            or (isinstance(x, ast.Attribute) and x.attr == "pi" and isinstance(x.value, ast.Name) and x.value.id in ("np", "numpy", "math")) \
+            or (isinstance(x, ast.BinOp) and _lit_const(x)) or (isinstance(x, ast.UnaryOp) and isinstance(x.op, ast.USub) and num(x.operand))   # noqa: E731
+        return num(e.left) and num(e.right)
     return False
 
 
@@ -2375,6 +2381,7 @@ def coalesce_copies(trees: Dict[str, ast.Module]) -> int:
     if not sigs:
         return 0
     n = 0
+    writers = attribute_writers(trees)
     for m, tree in trees.items():
         fns: List[Tuple[str, ast.FunctionDef]] = []
         for st in tree.body:
@@ -2388,6 +2395,10 @@ def coalesce_copies(trees: Dict[str, ast.Module]) -> int:
             if q not in sigs:
                 continue
             pinned = set(sigs[q]) | set(sigs.get("locals:" + q, []))
+            for _ in range(30):
+                if not _unhoist_once(fn, pinned, writers):
+                    break
+                n += 1
             for block in list(_blocks_of(fn)):
                 for bi in range(len(block) - 1, -1, -1):
                     st = block[bi]
@@ -2748,4 +2759,214 @@ def desugar_first_match(trees: Dict[str, ast.Module]) -> int:
                     ast.fix_missing_locations(top)
                     block[i] = top
                     n += 1
+    return n
+
+
+# ------------------------------------------------------------------------------------------ cached attribute look-ups
+def attribute_writers(trees: Dict[str, ast.Module]) -> Dict[str, Set[str]]:
+    """attribute name -> simple names of the package functions (other than constructors) that store to an attribute of that name"""
+    out: Dict[str, Set[str]] = {}
+    for tree in trees.values():
+        for fn in [x for x in ast.walk(tree) if isinstance(x, (ast.FunctionDef, ast.AsyncFunctionDef))]:
+            if fn.name == "__init__":
+                continue
+            for x in ast.walk(fn):
+                t = None
+                if isinstance(x, ast.Attribute) and isinstance(x.ctx, (ast.Store, ast.Del)):
+                    t = x
+                elif isinstance(x, ast.Subscript) and isinstance(x.ctx, (ast.Store, ast.Del)) and isinstance(x.value, ast.Attribute):
+                    t = x.value
+                if t is not None:
+                    out.setdefault(t.attr, set()).add(fn.name)
+    return out
+
+
+def _chain(e: ast.AST) -> Optional[Tuple[str, List[str]]]:
+    attrs: List[str] = []
+    while isinstance(e, ast.Attribute):
+        attrs.append(e.attr)
+        e = e.value
+    if isinstance(e, ast.Name) and attrs:
+        return e.id, attrs[::-1]
+    return None
+
+
+def _unhoist_once(fn: ast.AST, pinned: Set[str], writers: Dict[str, Set[str]]) -> bool:
+    """`x = obj.a.b` under a *new* local name x (bound once) that only saves repeated look-ups is the look-up itself: every read of x is
+    `obj.a.b` again, provided that between the binding and the reads obj is not rebound, no attribute named a or b is stored to in this
+    function, and no call that involves obj goes to a package function that stores to an attribute of that name."""
+    order, _guarded, names = _owner_index(fn)
+    pos = {id(s): i for i, s in enumerate(order)}
+    args = {a.arg for x in ast.walk(fn) if isinstance(x, ast.arguments) for a in x.args + x.kwonlyargs + x.posonlyargs + ([x.vararg] if x.vararg else []) + ([x.kwarg] if x.kwarg else [])}
+    stores: Dict[str, List[int]] = {}
+    for n, i in names:
+        if isinstance(n.ctx, (ast.Store, ast.Del)):
+            stores.setdefault(n.id, []).append(i)
+    for block in _blocks_of(fn):
+        for bi, st in enumerate(block):
+            if not (isinstance(st, ast.Assign) and len(st.targets) == 1 and isinstance(st.targets[0], ast.Name) and id(st) in pos):
+                continue
+            x = st.targets[0].id
+            ch = _chain(st.value)
+            if ch is None or x in pinned or x in args or stores.get(x) != [pos[id(st)]]:
+                continue
+            root, attrs = ch
+            if root == x:
+                continue
+            i1 = pos[id(st)]
+            reads = [i for n, i in names if n.id == x and isinstance(n.ctx, ast.Load)]
+            if not reads or min(reads) <= i1 - 0 and any(i < i1 for i in reads):
+                continue
+            last = max(reads)
+            if any(i1 < i <= last for i in stores.get(root, [])):
+                continue
+            span = [s for s in order[i1 + 1:last + 1]]
+            bad = False
+            for s in span:
+                own = [s] if not isinstance(s, (ast.If, ast.For, ast.While, ast.With, ast.Try)) else \
+                    [getattr(s, "test", None), getattr(s, "iter", None)] + [w.context_expr for w in getattr(s, "items", [])]
+                for part in own:
+                    if part is None:
+                        continue
+                    for y in ast.walk(part):
+                        if isinstance(y, ast.Attribute) and isinstance(y.ctx, (ast.Store, ast.Del)) and y.attr in attrs:
+                            bad = True
+                        if isinstance(y, ast.Subscript) and isinstance(y.ctx, (ast.Store, ast.Del)) and isinstance(y.value, ast.Attribute) and y.value.attr in attrs:
+                            bad = True
+                        if isinstance(y, ast.Call):
+                            nm = y.func.id if isinstance(y.func, ast.Name) else y.func.attr if isinstance(y.func, ast.Attribute) else None
+                            if nm is not None and any(nm in writers.get(a, ()) for a in attrs) \
+                                    and any(isinstance(z, ast.Name) and z.id == root for z in ast.walk(y)):
+                                bad = True
+            if bad:
+                continue
+            for n, _i in list(names):
+                if n.id == x and isinstance(n.ctx, ast.Load):
+                    new = copy.deepcopy(st.value)
+                    _replace_node(fn, n, ast.copy_location(new, n))
+            block.pop(bi)
+            ast.fix_missing_locations(fn)
+            return True
+    return False
+
+
+# ------------------------------------------------------------------------------------------------- numpy spellings
+_NP = ("np", "numpy")
+
+
+def _np_call(name: str, *args, keywords=None) -> ast.Call:
+    return ast.Call(func=ast.Attribute(value=ast.Name(id="np", ctx=ast.Load()), attr=name, ctx=ast.Load()), args=list(args), keywords=list(keywords or []))
+
+
+def _is_np(e: ast.AST, *names: str) -> bool:
+    return isinstance(e, ast.Call) and isinstance(e.func, ast.Attribute) and isinstance(e.func.value, ast.Name) and e.func.value.id in _NP and e.func.attr in names
+
+
+def _boolish(e: ast.AST) -> bool:
+    if isinstance(e, ast.Compare) or (isinstance(e, ast.UnaryOp) and isinstance(e.op, (ast.Invert, ast.Not))):
+        return True
+    if _is_np(e, "isnan", "isfinite", "isinf", "logical_not", "logical_and", "logical_or"):
+        return True
+    nm = e.attr if isinstance(e, ast.Attribute) else e.id if isinstance(e, ast.Name) else ""
+    return "mask" in nm
+
+
+class _NumpySpellings(ast.NodeTransformer):
+    """One spelling for numpy idioms that mean the same thing (the spelling the pinned tree uses): method forms of conjugate / argmin /
+    argmax / sum become the function forms, `(e).real` is `np.real(e)`, reductions called as methods of a numpy expression become
+    functions, the arithmetic ufuncs called with two arguments are the operators, `x.shape[0]` (and, outside the smoothing module,
+    `x.size` of a name) is `len(x)`, `np.count_nonzero(<mask>)` is `np.sum(<mask>)`, `x.ravel()` is `x.flatten()`, `np.take(a, i,
+    axis=0)` is `a[i]`."""
+    BINOPS = {"multiply": ast.Mult, "add": ast.Add, "subtract": ast.Sub, "divide": ast.Div, "true_divide": ast.Div}
+
+    def __init__(self, module: str):
+        self.module = module
+        self.n = 0
+
+    def visit_Call(self, node: ast.Call):
+        self.generic_visit(node)
+        f = node.func
+        if isinstance(f, ast.Attribute) and not (isinstance(f.value, ast.Name) and f.value.id in _NP):
+            recv = f.value
+            if f.attr in ("conj", "conjugate") and not node.args and not node.keywords:
+                self.n += 1
+                return ast.copy_location(_np_call("conjugate", recv), node)
+            if f.attr in ("argmin", "argmax", "sum") and not isinstance(recv, ast.Name) or \
+                    (f.attr in ("argmin", "argmax") and isinstance(recv, ast.Name)):
+                if not (isinstance(recv, ast.Name) and recv.id in ("self", "cls")):
+                    self.n += 1
+                    return ast.copy_location(_np_call(f.attr, recv, *node.args, keywords=node.keywords), node)
+            if f.attr in ("mean", "max", "min", "any", "all") and (_is_np(recv, "square", "abs", "absolute", "isnan", "logical_not", "conjugate", "real")
+                                                                     or isinstance(recv, ast.BinOp)):
+                self.n += 1
+                return ast.copy_location(_np_call(f.attr, recv, *node.args, keywords=node.keywords), node)
+            if f.attr == "ravel" and not node.args and not node.keywords:
+                f.attr = "flatten"
+                self.n += 1
+                return node
+        if _is_np(node, "conj") and len(node.args) == 1:
+            node.func.attr = "conjugate"
+            self.n += 1
+        if _is_np(node, *self.BINOPS) and len(node.args) == 2 and not node.keywords:
+            self.n += 1
+            return ast.copy_location(ast.BinOp(left=node.args[0], op=self.BINOPS[node.func.attr](), right=node.args[1]), node)
+        if _is_np(node, "logical_not") and len(node.args) == 1 and not node.keywords:
+            self.n += 1
+            return ast.copy_location(ast.UnaryOp(op=ast.Invert(), operand=node.args[0]), node)
+        if _is_np(node, "count_nonzero") and len(node.args) == 1 and _boolish(node.args[0]):
+            node.func.attr = "sum"
+            self.n += 1
+        if _is_np(node, "take") and len(node.args) == 2 and all(k.arg == "axis" and isinstance(k.value, ast.Constant) and k.value.value == 0 for k in node.keywords):
+            self.n += 1
+            return ast.copy_location(ast.Subscript(value=node.args[0], slice=node.args[1], ctx=ast.Load()), node)
+        if self.module == "processing" and _is_np(node, "vstack", "row_stack", "stack") and len(node.args) == 1 and isinstance(node.args[0], (ast.Tuple, ast.List)) \
+                and not node.keywords:
+            self.n += 1
+            return ast.copy_location(_np_call("array", ast.List(elts=list(node.args[0].elts), ctx=ast.Load())), node)
+        if self.module == "hvsr_spatial" and _is_np(node, "concatenate") and len(node.args) == 1 and isinstance(node.args[0], (ast.Tuple, ast.List)) \
+                and len(node.args[0].elts) == 2 and isinstance(node.args[0].elts[1], ast.List) and len(node.args[0].elts[1].elts) == 1 and not node.keywords:
+            self.n += 1
+            return ast.copy_location(_np_call("vstack", ast.Tuple(elts=[node.args[0].elts[0], node.args[0].elts[1].elts[0]], ctx=ast.Load())), node)
+        return node
+
+    def visit_Attribute(self, node: ast.Attribute):
+        self.generic_visit(node)
+        if isinstance(node.ctx, ast.Load) and node.attr == "real" and isinstance(node.value, (ast.BinOp, ast.Call)):
+            self.n += 1
+            return ast.copy_location(_np_call("real", node.value), node)
+        # only for plain local names: `settings.azimuths_in_degrees.size` fails for a list-valued field where len() works (C15.R4 looks for it)
+        if isinstance(node.ctx, ast.Load) and node.attr == "size" and self.module != "smoothing" and isinstance(node.value, ast.Name) and node.value.id not in _NP \
+                and node.value.id not in ("self", "settings"):
+            self.n += 1
+            return ast.copy_location(ast.Call(func=ast.Name(id="len", ctx=ast.Load()), args=[node.value], keywords=[]), node)
+        return node
+
+    def visit_Subscript(self, node: ast.Subscript):
+        self.generic_visit(node)
+        if self.module != "smoothing" and isinstance(node.ctx, ast.Load) and isinstance(node.value, ast.Attribute) and node.value.attr == "shape" \
+                and isinstance(node.slice, ast.Constant) and node.slice.value == 0:
+            self.n += 1
+            return ast.copy_location(ast.Call(func=ast.Name(id="len", ctx=ast.Load()), args=[node.value.value], keywords=[]), node)
+        return node
+
+
+def canonical_numpy_spellings(trees: Dict[str, ast.Module]) -> int:
+    n = 0
+    for m, tree in trees.items():
+        # `np.f(args, out=target)` as a statement is `target = np.f(args)` (target a subscript: the same cells are written)
+        for block in [b for x in ast.walk(tree) for b in ([getattr(x, f_) for f_ in ("body", "orelse", "finalbody") if isinstance(getattr(x, f_, None), list)])]:
+            for i, st in enumerate(block):
+                if isinstance(st, ast.Expr) and isinstance(st.value, ast.Call) and isinstance(st.value.func, ast.Attribute) and isinstance(st.value.func.value, ast.Name) \
+                        and st.value.func.value.id in _NP:
+                    outs = [k for k in st.value.keywords if k.arg == "out"]
+                    if len(outs) == 1 and isinstance(outs[0].value, ast.Subscript):
+                        tgt = copy.deepcopy(outs[0].value)
+                        tgt.ctx = ast.Store()
+                        st.value.keywords = [k for k in st.value.keywords if k.arg != "out"]
+                        block[i] = ast.copy_location(ast.Assign(targets=[tgt], value=st.value), st)
+                        n += 1
+        t = _NumpySpellings(m)
+        t.visit(tree)
+        n += t.n
+        ast.fix_missing_locations(tree)
     return n
